@@ -452,6 +452,9 @@ class Interp:
         raise Unsupported('`is` on %r, %r' % (a, b))
 
     def contains(self, container, item):
+        m = self.world.binop_model('in', container, item, self)
+        if m is not NotImplemented:
+            return m.t if isinstance(m, SBool) else m
         if isinstance(container, MList):
             container = container.seq
         if isinstance(container, SSeq):
